@@ -1,5 +1,5 @@
 CONSTANTS
-  Fams = {"accept", "mime", "language", "charset"}
+  Fams = {"mime", "language"}
   MaxItems = 2
   MaxOffers = 3
   QTexts <- QProp
